@@ -104,6 +104,48 @@ fn readwrap_side(enc_side: bool, input: &[u8], counts: &[usize]) {
     }
 }
 
+/// C10/C06 replay: how much the record buffer grows after the standard judge has answered SkipRecord.
+fn stream_growth_side(input: &[u8], max_size: Option<usize>, limit: Option<u64>) {
+    use std::cell::Cell;
+    for block in [None, Some(2usize), Some(3), Some(4)] {
+        for step in [usize::MAX, 1, 2] {
+            let worst = Cell::new(0usize);
+            let skipped_at: Cell<Option<usize>> = Cell::new(None);
+            let res = std::panic::catch_unwind(std::panic::AssertUnwindSafe(|| {
+                let inner = hcobs::StreamReader::chunk_judge(max_size.unwrap_or(usize::MAX), limit);
+                let judge = |range: std::ops::Range<u64>, iov: owning_iovec::ConsumingIovec<'_>| {
+                    let total = iov.total_size();
+                    if total == 0 {
+                        skipped_at.set(None); // a new record started
+                    }
+                    if let Some(t) = skipped_at.get() {
+                        if total > t {
+                            worst.set(worst.get().max(total - t));
+                        }
+                    }
+                    let verdict = inner(range, iov);
+                    if verdict == hcobs::StreamAction::SkipRecord && skipped_at.get().is_none() {
+                        skipped_at.set(Some(total));
+                    }
+                    verdict
+                };
+                let mut src = Dribble { data: input, step };
+                let mut reader = hcobs::StreamReader::new();
+                for _ in 0..(input.len() + 4) {
+                    match reader.next_record_bytes(&mut src, &judge, block) {
+                        Ok(Some(_)) => {}
+                        _ => break,
+                    }
+                }
+            }));
+            match res {
+                Err(_) => println!("GROWTH block={:?} step={} => 999999", block, step),
+                Ok(()) => println!("GROWTH block={:?} step={} => {}", block, step, worst.get()),
+            }
+        }
+    }
+}
+
 fn main() {
     let args: Vec<String> = std::env::args().collect();
     let side = args[1].clone();
@@ -112,6 +154,11 @@ fn main() {
         None => args[2].clone(),
     };
     let input: Vec<u8> = parse_list(text.trim()).into_iter().map(|x| x as u8).collect();
+    if side == "stream-growth" {
+        let opt = |s: &str| if s == "none" { None } else { Some(s.parse::<u64>().unwrap()) };
+        stream_growth_side(&input, opt(&args[3]).map(|x| x as usize), opt(&args[4]));
+        return;
+    }
     if side == "stream" {
         let opt = |s: &str| if s == "none" { None } else { Some(s.parse::<u64>().unwrap()) };
         stream_side(&input, opt(&args[3]).map(|x| x as usize), opt(&args[4]));
